@@ -408,6 +408,59 @@ def grammar_atoms(ctx, k):
     return out
 
 
+
+def corrupted_atoms(ctx, k):
+    """bracket atoms obtained from VALID documented ones by one semantic corruption that the documentation excludes
+    (mixed-kind OR list at any position and length, a word primitive inside a list, an empty list item, a value out of the
+    documented range, a duplicated value, an unknown primitive letter, `&` / `!` operators) — each must raise IncorrectSmarts"""
+    rng = ctx.rng
+    letters = 'Dhrxz'
+    rng_ok = {'D': (0, 14), 'h': (0, 14), 'x': (0, 14), 'z': (1, 4), 'r': (3, 12)}
+    heads = ['C', 'N', 'A', 'C,N', 'O', '#6', 'Cl', 'M']
+    out = []
+
+    def lst(t, n):
+        lo, hi = rng_ok[t]
+        vals = rng.sample(range(lo, hi + 1), min(n, hi - lo + 1))
+        return [f'{t}{v}' for v in vals]
+
+    for _ in range(k):
+        head = rng.choice(heads)
+        t = rng.choice('Dz' if head == 'M' else letters)
+        n = rng.randint(2, 5)
+        items = lst(t, n)
+        kind = rng.randrange(8)
+        if kind == 0:      # mixed kinds: replace the letter of one item (any position) by another documented letter
+            i = rng.randrange(len(items))
+            u = rng.choice([c for c in letters if c != t])
+            lo, hi = rng_ok[u]
+            items[i] = f'{u}{rng.randint(lo, hi)}'
+        elif kind == 1:    # word primitive inside a list
+            items.insert(rng.randrange(len(items) + 1), rng.choice(['a', '!R', 'M', 'A']))
+        elif kind == 2:    # empty item
+            items.insert(rng.randrange(len(items) + 1), '')
+        elif kind == 3:    # out of the documented range
+            lo, hi = rng_ok[t]
+            items[rng.randrange(len(items))] = f'{t}{rng.choice([hi + 1 if t != "r" else 2, 15 if t != "r" else 1, 99 if t != "r" else 0])}'
+            if t == 'r' and items.count('r0') == len(items):
+                continue
+        elif kind == 4:    # duplicated value
+            items.append(items[rng.randrange(len(items))])
+        elif kind == 5:    # unknown primitive letter
+            items[rng.randrange(len(items))] = rng.choice('RXvHqQ') + '2'
+        elif kind == 6:    # & operator
+            items = ['&'.join(items[:2])] + items[2:]
+        else:              # negation of a numeric primitive
+            i = rng.randrange(len(items))
+            items[i] = '!' + items[i]
+        prims = [','.join(items)]
+        for u in rng.sample([c for c in letters if c != t], rng.randint(0, 2)):
+            if head == 'M' and u not in 'Dz':
+                continue
+            prims.insert(rng.randrange(len(prims) + 1), ','.join(lst(u, rng.randint(1, 2))))
+        out.append('[' + head + ';' + ';'.join(prims) + ']')
+    return list(dict.fromkeys(out))
+
 def bond_strings(ctx):
     out = ['']
     maxlen = 4 if ctx.quick else 5
@@ -848,7 +901,9 @@ def stream_smarts(ctx, programs):
     cases += chain_strings(ctx)
     cases += [('[C]', [1]), ('[C][C]', [0, 1]), ('[C][C]', [2]), ('[M]', [0]), ('[A;D2]', [0]), ('[C:1][C:1]', []), ('[C:2][C]', [])]
     cases += [(t, []) for t in MUST_REJECT]
-    for t in MUST_REJECT:   # property-level, needs no model: documented-unsupported constructs are rejected with IncorrectSmarts
+    corrupted = corrupted_atoms(ctx, 2500 if ctx.quick else 25000)
+    cases += [(t, []) for t in corrupted]
+    for t in MUST_REJECT + corrupted:   # property-level, needs no model: documented-unsupported constructs are rejected with IncorrectSmarts
         out = real_smarts_outcome(t)
         ctx.count(('must-reject', t))
         if out[0] == 'ok':
@@ -1593,7 +1648,7 @@ def search(ctx):
         if c.get('query', '').startswith('['):
             texts.append(c['query'])
     # 0. constructs the documentation excludes must be rejected (with IncorrectSmarts)
-    for t in MUST_REJECT:
+    for t in MUST_REJECT + corrupted_atoms(ctx, 3000):
         out = real_smarts_outcome(t)
         if out[0] == 'ok':
             ctx.fail('C08/unsupported-construct-accepted', f'smarts({t!r}) is accepted although the documentation excludes it',
@@ -1749,7 +1804,8 @@ def check_bond(btok, ring, mol):
 
 
 def cistrans_case(q_text, m_text):
-    """(expected, got) for one pattern / molecule pair written with the same direction-mark convention"""
+    """(expected, got) for one pattern / molecule pair written with the same direction-mark convention; the pattern's double bond
+    may carry an order list / negation and a ring mark; the molecule's double bond is in a ring iff its SMILES has a closure digit"""
     from chython import smarts, smiles
     marks = lambda t: [c for c in t if c in '/\\']
     qa, qc = marks(q_text)
@@ -1758,28 +1814,41 @@ def cistrans_case(q_text, m_text):
     m = smiles(m_text)
     got = bool(list(q.get_mapping(m, automorphism_filter=False, _cython=False)))
     exp = len(mm) == 2 and ((qa == qc) == (mm[0] == mm[1]))
+    if ';!@' in q_text:
+        exp = exp and '1' not in m_text
+    elif ';@' in q_text:
+        exp = exp and '1' in m_text
     return exp, got
 
 
 def check_cistrans():
     bad = []
+    cases = []
     for x, y in (('F', 'F'), ('Cl', 'Br'), ('N', 'O')):
-        for btok in ('=', '=,#', '=;!@'):
+        for btok in ('=', '=,#', '!-', '=;!@', '=;@', '=,#;@', '!-;!@', '-,=;!@'):
             for a in '/\\':
                 for c in '/\\':
                     qt = f'[{x}]{a}[C]{btok}[C]{c}[{y}]'
                     mols = [f'{x}{a2}C=C{c2}{y}' for a2 in '/\\' for c2 in '/\\'] + [f'{x}C=C{y}']
-                    for mt in mols:
-                        try:
-                            exp, got = cistrans_case(qt, mt)
-                        except Exception as e:
-                            bad.append(((qt, mt), f'{qt} on {mt}: {type(e).__name__}: {e}'))
-                            continue
-                        if exp != got:
-                            bad.append(((qt, mt), f'{qt} on {mt}: same configuration expected {"match" if exp else "no match"}, '
-                                                  f'get_mapping says {"match" if got else "no match"}'))
+                    cases += [(qt, mt) for mt in mols]
+    # ring alkenes (one substituent per sp2 carbon: the ring itself), 8- and 10-membered, both configurations
+    for btok in ('=', '=;@', '=;!@', '=,#;@', '!-;!@', '!-;@'):
+        for a in '/\\':
+            for c in '/\\':
+                qt = f'[C]{a}[C]{btok}[C]{c}[C]'
+                for ring in ('C1CCC{}C=C{}CC1', 'C1CCCC{}C=C{}CCC1'):
+                    cases += [(qt, ring.format(a2, c2)) for a2 in '/\\' for c2 in '/\\']
+                cases += [(qt, f'CC{a2}C=C{c2}CC') for a2 in '/\\' for c2 in '/\\']
+    for qt, mt in cases:
+        try:
+            exp, got = cistrans_case(qt, mt)
+        except Exception as e:
+            bad.append(((qt, mt), f'{qt} on {mt}: {type(e).__name__}: {e}'))
+            continue
+        if exp != got:
+            bad.append(((qt, mt), f'{qt} on {mt}: same configuration / ring state expected {"match" if exp else "no match"}, '
+                                  f'get_mapping says {"match" if got else "no match"}'))
     return bad
-
 
 
 def check_chain(text):
@@ -1817,6 +1886,20 @@ def check_chain(text):
     nb = sum(1 for t in toks[1:-1] if t != '.')
     if len(list(q.bonds())) != nb:
         return f'{body}: {nb} bonds written, {len(list(q.bonds()))} built'
+    # every junction: the documented order set and ring mark of its token, whatever other marks surround it
+    for i, t in enumerate(toks[1:-1]):
+        if t == '.':
+            continue
+        base, _, rm = t.partition(';')
+        want_orders = frozenset({1} if base in ('', '/', '\\') else BOND_DOC[base])
+        want_ring = {'': None, '@': True, '!@': False}[rm]
+        try:
+            b = q.bond(nums[i], nums[i + 1])
+        except Exception:
+            return f'{body}: no bond between atoms {nums[i]} and {nums[i + 1]}'
+        if frozenset(b.order) != want_orders or b.in_ring is not want_ring:
+            return (f'{body}: bond {i + 1} written {t!r} is read as orders {sorted(b.order)} ring mark {b.in_ring}, '
+                    f'documented {sorted(want_orders)} / {want_ring}')
     return None
 
 
